@@ -39,7 +39,9 @@ def collect(args):
             mp = os.path.join(sdir, d, 'meta.json')
             if os.path.exists(p) and os.path.exists(mp):
                 meta = json.load(open(mp))
-                out.append(('seeded/' + d, meta['property'], p))
+                # 'check': the property whose check is expected to catch the change when that is not the property the
+                # change was written against (e.g. a change that is unobservable sequentially but breaks isolation)
+                out.append(('seeded/' + d, meta.get('check', meta['property']), p))
     if args.only:
         out = [x for x in out if any(s in x[0] for s in args.only.split(','))]
     return out
